@@ -111,12 +111,40 @@ def late_match(rng, p):
     return p
 
 
+def unique_match(rng, p):
+    """Rewrites the input so that exactly ONE source element (somewhere in the middle) produces an
+    output the find-like terminal is looking for: nobody else can end the search."""
+    k = p["term"]["k"]
+    if k not in ("find", "any", "all", "find_idx") or len(p["input"]) < 4 or p["src"] in ("btree", "btreeref"):
+        return p
+    late_match(rng, p)
+    want = [x for x in range(V) if (p["term"]["t"][x] != 0) != (k == "all")]
+
+    def yields(x):
+        q = dict(p, input=[x])
+        _, outs = py_calls(norm(q))
+        return any(o[1] in want for o in outs)
+    bad = [x for x in range(V) if yields(x)]
+    good = [x for x in range(V) if x not in bad]
+    if not bad or not good:
+        return p
+    n = len(p["input"])
+    pos = rng.randrange(n // 4, max(n // 4 + 1, (3 * n) // 4))
+    p["input"] = [rng.choice(good) if x in bad else x for x in p["input"]]
+    p["input"][pos] = rng.choice(bad)
+    return p
+
+
 def with_term(rng, mk, **kw):
     """generate program first (to know src/shape), then attach a terminal built by mk"""
     p = gen_prog(rng, **kw)
     p["term"] = mk(rng, p["src"], shape_of(p))
-    if p["term"]["k"] in ("find", "any", "all", "find_idx") and p["src"] != "inf" and rng.random() < 0.5:
-        late_match(rng, p)
+    if p["term"]["k"] in ("find", "any", "all", "find_idx") and p["src"] != "inf":
+        r = rng.random()
+        if r < 0.35:
+            unique_match(rng, p)
+        elif r < 0.6:
+            late_match(rng, p)
     return norm(p)
 
 
@@ -177,7 +205,10 @@ def lag_jobs(rng, tier, mk_terms, add):
         p = gen_prog(rng, src=src, shape=sh, n=rng.choice([40, 64]), nt=rng.choice([6, 7, 8, 12, None]),
                      cs=rng.choice([("csmin", 1), ("csmin", 1), ("csmin", 2), ("csmin", 3), None]))
         p["term"] = mk_terms[i % len(mk_terms)](rng, src, shape_of(p))
-        if rng.random() < 0.6:
+        r = rng.random()
+        if r < 0.4:
+            unique_match(rng, p)
+        elif r < 0.7:
             late_match(rng, p)
         add(norm(p), "rand")
 
